@@ -736,7 +736,8 @@ LEVEL_TEXT = ("Exploration by runtime monitoring: the NF monitor evaluates the n
               "record mutator in every execution, and a lock-step shadow model predicts accept / no-op / refuse(ProvException) and the stored "
               "Python value for every (attribute, value) of generated call sequences over all 18 kinds, all entry paths and all accepted "
               "representations (record object, QualifiedName under other prefixes/objects, 'p:l', bare, full URI; datetime / ISO string; "
-              "Literal(lex, xsd:T) vs native). Also evaluated over API programs and the shipped corpus files.")
+              "Literal(lex, xsd:T) vs native). Also evaluated over API programs and the shipped corpus files."
+              " Since rounds 4-8 the creating call also goes through subtype factories, alias methods, keyword arguments and dict-form attributes; records are read between calls; the rules are also judged on records of documents built in another process (pickle) and on a long-lived collector that receives record objects of short-lived documents.")
 LEVEL_NOTE = ("Trusted: the shadow model (sequential, non-atomic application as the statement allows), our own table of PROV formal attributes "
               "and of the lexical spaces of the 7 native datatypes. The multi-member membership path is exempt exactly as the quantifier says.")
 DESIGN_REF = "DESIGN.md section 5 (NF) and section 6, C05"
